@@ -352,11 +352,71 @@ class Folder:
             if is_unknown(t):
                 return Unknown('ifexp')
             return ev(node.body) if t else ev(node.orelse)
-        if isinstance(node, ast.ListComp) or isinstance(node, ast.GeneratorExp):
-            return Unknown('comprehension')
+        if isinstance(node, (ast.ListComp, ast.GeneratorExp, ast.SetComp, ast.DictComp)):
+            return self._comprehension(node, env, modname, depth)
         if isinstance(node, ast.Lambda):
             return Unknown('lambda')
         return Unknown(type(node).__name__)
+
+    def _comprehension(self, node, env, modname, depth):
+        """Comprehension over folded sequences (a generator folds to a list)."""
+        out = []
+        bad = []
+
+        def rec(i, local):
+            if bad:
+                return
+            if i == len(node.generators):
+                if isinstance(node, ast.DictComp):
+                    k = self._eval(node.key, local, modname, depth)
+                    v = self._eval(node.value, local, modname, depth)
+                    if is_unknown(k):
+                        bad.append(k)
+                    out.append((k, v))
+                else:
+                    out.append(self._eval(node.elt, local, modname, depth))
+                return
+            g = node.generators[i]
+            it = self._eval(g.iter, local, modname, depth)
+            if isinstance(it, dict):
+                it = list(it)
+            if g.is_async or not isinstance(it, (list, tuple, str, set, frozenset)) or len(it) > 500:
+                bad.append(Unknown('comprehension iterable'))
+                return
+            if isinstance(it, (set, frozenset)):
+                try:
+                    it = sorted(it)
+                except TypeError:
+                    it = list(it)
+            for x in it:
+                loc = dict(local)
+                self._bind(g.target, x, loc, modname)
+                keep = True
+                for c in g.ifs:
+                    t = self._eval(c, loc, modname, depth)
+                    if is_unknown(t):
+                        bad.append(t)
+                        return
+                    if not t:
+                        keep = False
+                        break
+                if keep:
+                    rec(i + 1, loc)
+
+        rec(0, dict(env))
+        if bad:
+            return Unknown('comprehension')
+        if isinstance(node, ast.DictComp):
+            try:
+                return dict(out)
+            except TypeError:
+                return Unknown('comprehension: unhashable key')
+        if isinstance(node, ast.SetComp):
+            try:
+                return set(out)
+            except TypeError:
+                return Unknown('comprehension: unhashable element')
+        return out
 
     def _binop(self, op, a, b):
         if is_unknown(a):
@@ -418,6 +478,12 @@ class Folder:
                 if isinstance(pat, str) and isinstance(flags, int):
                     return RegexVal(pat, int(flags))
                 return Unknown(f"re.compile args ({pat!r:.40}, {flags!r})")
+            if isinstance(base, ModuleVal) and base.name == 're' and f.attr == 'escape' and len(node.args) == 1:
+                a0 = ev(node.args[0])
+                if isinstance(a0, str):
+                    import re as _re
+                    return _re.escape(a0)
+                return Unknown('re.escape arg')
             if isinstance(base, str) and f.attr == 'format':
                 args = [ev(a) for a in node.args]
                 kw = {k.arg: ev(k.value) for k in node.keywords}
